@@ -96,6 +96,22 @@ func (p *c02) Init(tier string) {
 			}
 		}
 	}
+	// conditions and branches without any column (constant true / false) around branches that read
+	// the row: nothing about such a CASE is the same for every row
+	constConds := []Expr{Cmp{"<", Lit{V: 2.0}, Lit{V: 1.0}}, Cmp{"=", Lit{V: 1.0}, Lit{V: 1.0}}, Cmp{"=", Lit{V: "x"}, Lit{V: "y"}}}
+	for _, cc := range constConds {
+		for _, v := range []Expr{Col{"a"}, Col{"zz"}, Col{"o.p.q"}, Bin{"+", Col{"a"}, Lit{V: 1.0}}} {
+			add(Case{Whens: []When{{cc, Lit{V: 0.0}}}, Else: v})
+			add(Case{Whens: []When{{cc, v}}, Else: Lit{V: 0.0}})
+			add(Case{Whens: []When{{cc, Lit{V: 0.0}}, {constConds[0], Lit{V: "k"}}}, Else: v})
+			add(Bin{"+", Case{Whens: []When{{cc, Lit{V: 1.0}}}, Else: v}, Lit{V: 1.0}})
+		}
+	}
+	// string literals spelled like the numeric literals used all over this check
+	for _, sl := range []string{"2", "0.5", "3", "-1", "1", "0", "100"} {
+		add(Lit{V: sl})
+		add(Case{Whens: []When{{conds[0], Lit{V: sl}}}, Else: Lit{V: 2.0}})
+	}
 	// depth 2: representative set x leaves, both sides
 	// (operands that are not plain binary nodes come first, so that the quick tier's cut keeps them:
 	// unary over a column, CASE, and a nested path)
@@ -132,7 +148,7 @@ func (p *c02) Init(tier string) {
 	// select-list shapes
 	menu := []Item{
 		{E: Col{"a"}}, {E: Col{"d"}}, {E: Col{"o.p.q"}}, {E: Col{"zz"}}, {E: Col{"a"}, As: "x"}, {E: Col{"d"}, As: "a"},
-		{E: Bin{"+", Col{"a"}, Lit{V: 1.0}}, As: "x"}, {E: Lit{V: "str"}, As: "s2"}, {E: Case{Whens: []When{{conds[0], Col{"d"}}}, Else: Lit{V: 0.0}}, As: "k"},
+		{E: Bin{"+", Col{"a"}, Lit{V: 1.0}}, As: "x"}, {E: Lit{V: "2"}, As: "s2"}, {E: Case{Whens: []When{{conds[0], Col{"d"}}}, Else: Lit{V: 0.0}}, As: "k"},
 		{Star: true}, {E: Col{"o"}}, {E: Col{"id"}}, {E: Cmp{">", Col{"a"}, Lit{V: 1.0}}, As: "f"},
 	}
 	wheres := []Expr{nil, Cmp{">", Col{"a"}, Lit{V: 0.0}}, Cmp{"=", Col{"s"}, Lit{V: "x"}}}
